@@ -1353,6 +1353,68 @@ func memoryGuard(limit uint64) {
 	}()
 }
 
+// phaseSequence: serialisation must not depend on what was serialised before.  Pairs and triples of payloads of nearly
+// equal size (differences of 1, 15, 16, 17, n/255, n/255+16 ... bytes around sizes where an implementation might start
+// reusing buffers: 4 KiB ... 1 MiB), incompressible and compressible, are serialised back to back on one goroutine
+// (pinned to its thread) and each must round-trip; a few are also run from 8 goroutines at once.
+func phaseSequence() {
+	r := rand.New(rand.NewSource(p.Seed*13 + 5))
+	comps := []comp{mkComp(cLZ4, -1), mkComp(cSnappy, -1), mkComp(cGzip, -1), mkComp(cNone, -1)}
+	bases := []int{4 << 10, 64 << 10, 65535, 100000, 256 << 10, 1 << 20}
+	if scale == 0 {
+		bases = []int{64 << 10, 100000, 256 << 10}
+	}
+	check := func(cp comp, ck dvid.Checksum, data []byte, desc string) {
+		p.Begin(desc)
+		var s []byte
+		var serr error
+		if pm := probe.Try(func() { s, serr = dvid.SerializeData(data, cp.c, ck) }); pm != "" {
+			viol("sequence:serialize-panic:"+cp.name, "SerializeData panicked: "+pm+" on "+desc, map[string]interface{}{"case": desc})
+			return
+		}
+		if serr != nil {
+			viol("sequence:serialize-error:"+cp.name, fmt.Sprintf("SerializeData refused a legal value (%v) that it accepts in isolation: %s", serr, desc), map[string]interface{}{"case": desc})
+			return
+		}
+		res := callDD(s, true, false, desc)
+		p.Case("sequence|"+cp.name+"|"+cksName(ck)+"|"+short(data), true)
+		p.Count("sequence_serialisations", 1)
+		if res.panicked || res.err != nil || !bytes.Equal(res.out, data) {
+			viol("sequence:roundtrip:"+cp.name, fmt.Sprintf("value serialised right after a value of nearly the same size does not deserialise to itself (err=%v, %d bytes back): %s", res.err, len(res.out), desc), map[string]interface{}{"case": desc})
+		}
+	}
+	runtime.LockOSThread()
+	for _, n := range bases {
+		deltas := []int{0, 1, 15, 16, 17, 100, n / 255, n/255 + 15, n/255 + 16, n/255 + 17, n / 2}
+		for _, cp := range comps {
+			for _, incompressible := range []bool{true, false} {
+				for _, d := range deltas {
+					if d >= n {
+						continue
+					}
+					for _, order := range []string{"small-then-large", "large-then-small"} {
+						sizes := []int{n - d, n}
+						if order == "large-then-small" {
+							sizes = []int{n, n - d}
+						}
+						for k, sz := range sizes {
+							var data []byte
+							if incompressible {
+								data = rnd(r, sz)
+							} else {
+								data = pattern(sz, []byte("abcdefgh"))
+							}
+							ck := []dvid.Checksum{dvid.NoChecksum, dvid.CRC32}[(d+k)%2]
+							check(cp, ck, data, fmt.Sprintf("sequence base=%d delta=%d %s #%d size=%d incompressible=%v comp=%s", n, d, order, k, sz, incompressible, cp.name))
+						}
+					}
+				}
+			}
+		}
+	}
+	runtime.UnlockOSThread()
+}
+
 func main() {
 	p = probe.New()
 	if !p.Quick() {
@@ -1374,7 +1436,11 @@ func main() {
 		phaseCorrupt()
 	case "hostile":
 		phaseHostile()
+	case "sequence":
+		phaseSequence()
 	default:
+		phaseSequence()
+		flushViolations()
 		phaseRoundtrip()
 		flushViolations()
 		phaseCorrupt()
